@@ -1,6 +1,6 @@
 //! Tower middleware cases (C20): the real SentinelService over a scripted inner service,
 //! polled by hand, under an isolation rule so that a leaked admission shows up.
-//! case: tag threshold role(0 server,1 client) fallback(0/1)  { kind drop }*
+//! case: tag threshold role(0 server,1 client) fallback(0 none, 1 answers Ok, 2 answers Err)  { kind drop }*
 //!       kind: 0 ready Ok, 1 ready Err, 2 pending-then-Ok, 3 pending-then-Err ; drop=1: future dropped after one poll
 //! out : per request: inner_calls_delta  result(0 Ok inner, 1 Ok fallback, 2 Err, 3 dropped)  inflight_after inner_polls
 use crate::util::*;
@@ -78,6 +78,9 @@ fn extractor(r: &Req) -> String {
 fn fallback(_r: &Req, _e: sentinel_core::Error) -> Result<Resp, sentinel_tower::BoxError> {
     Ok(Resp::Fallback)
 }
+fn fallback_err(_r: &Req, e: sentinel_core::Error) -> Result<Resp, sentinel_tower::BoxError> {
+    Err(e.into())
+}
 
 pub fn run_case(t: &mut Toks) -> Vec<i128> {
     let mut out = Vec::new();
@@ -97,6 +100,8 @@ pub fn run_case(t: &mut Toks) -> Vec<i128> {
         SentinelService::new(inner, if role == 0 { ServiceRole::Server } else { ServiceRole::Client }).with_extractor(extractor);
     if fb == 1 {
         svc = svc.with_fallback(fallback);
+    } else if fb == 2 {
+        svc = svc.with_fallback(fallback_err);
     }
     let waker = Waker::from(Arc::new(NoopWake));
     let mut cx = Context::from_waker(&waker);
